@@ -278,6 +278,17 @@ func init() {
 			js = append(js, lexJobs([]string{"C05"}, "VerifCompile", tier)...)
 			js = append(js, sandwichJobs([]string{"C05"}, tier, false)...)
 			js = append(js, parseJobs([]string{"C05"}, tier)...)
+			for _, sw := range [][2]string{{"reverse('", "')"}, {"length('", "')"}, {"to_number('", "')"}, {"contains('", "', 'a')"}, {"starts_with('a", "', 'a')"},
+				{"'", "'"}, {"\"", "\""}, {"sort(['", "', 'b'])"}, {"join('", "', ['a', 'b'])"}, {"max(['a', '", "'])"}, {"to_string('", "')"}, {"'", "' == 'a'"}, {"'", "' < 'a'"}} {
+				nn := 2
+				if tier == "thorough" {
+					nn = 3
+				}
+				j := jobOf("VerifSearchBytes", []string{"C05"}, "pre", sw[0], "post", sw[1], "N", itoa(nn))
+				j.Unwind = 96
+				j.W, j.S = 1, 1
+				js = append(js, j)
+			}
 			L := 6
 			if tier == "thorough" {
 				L = 12
@@ -368,6 +379,21 @@ func init() {
 			for _, j := range js {
 				j.LockedWritesOK = true
 			}
+			for _, e := range []string{"a", "p.a", "s[*].a", "q[*].n", "[a, n]", "{x: a, y: p.a}", "s[?a].n", "l[0]", "p || a", "length(s)", "q[]", "s[0].p.a", "sort_by(s, &n)", "s[*].[a, n]"} {
+				for _, ptr := range []string{"0", "1"} {
+					u := ""
+					for _, c := range "anpsqlf" {
+						if strings.ContainsRune(e, c) {
+							u += string(c)
+						}
+					}
+					j := jobOf("VerifStructCompiled", []string{"C12"}, "expr", e, "use", u, "ptr", ptr)
+					j.Unwind = 64 + 4*len(e)
+					j.NumBound = 1e30
+					j.LockedWritesOK = true
+					js = append(js, j)
+				}
+			}
 			one := frameJobs("C12", "quick")
 			for _, j := range one {
 				j.LockedWritesOK = true
@@ -394,7 +420,9 @@ func init() {
 			call("keys", hCur()), call("values", hCur()), buildChain(hField("a"), sProj(), sField("b")), call("merge", hCur(), hLit(`{"a":1}`)),
 			call("to_array", hField("a")), buildChain(hField("a"), sSlice("_", "_", "-1")), hField("a"), call("abs", hField("a")),
 			hList(hField("a"), hLit("[1]")), call("max_by", hField("a"), ref(hField("b"))), call("map", ref(hField("a")), hCur()),
-			call("not_null", hField("a"), lit), tOr(hField("a"), lit), call("sort_by", call("to_array", hField("a")), ref(hCur()))}
+			call("not_null", hField("a"), lit), tOr(hField("a"), lit), call("sort_by", call("to_array", hField("a")), ref(hCur())),
+			hList(call("not_null", hField("a")), call("not_null", hField("a"), hField("b"))), hList(call("merge", hField("a")), call("merge", hField("a"), hField("b"))),
+			tOr(tAnd(hField("a"), call("not_null", hField("a"), hField("b"), hCur())), call("not_null", hField("b"))), call("merge", hLit(`{"z":1}`), hCur())}
 		if tier == "thorough" {
 			ts = append(ts, familyFunc("quick")...)
 			ts = append(ts, familyProj("quick")[:80]...)
@@ -417,6 +445,17 @@ func init() {
 			nmax := 2
 			if tier == "thorough" {
 				nmax = 3
+			}
+			for _, first := range []string{"'it\\'s", "a == 'x\\'", "a.b", "\"un\\\"closed"} {
+				for _, sw := range [][2]string{{"'", "'"}, {"", ""}, {"a == '", "'"}} {
+					nn := 1
+					if sw[0] == "" {
+						nn = 3
+					}
+					j := jobOf("VerifSearchHistory", []string{"C13"}, "first", first, "pre", sw[0], "post", sw[1], "N", itoa(nn))
+					j.Unwind = 96
+					js = append(js, j)
+				}
 			}
 			firsts := []string{"a.b", "a[", "'unterminated", "\"", "a || ", "`[1,2]`", "foo(", "'it\\'s'", "a[0:1:2:3]", "'it\\'s", "a == 'x\\'", "\"un\\\"closed", "`[1,"}
 			for fi, first := range firsts {
@@ -594,6 +633,7 @@ func init() {
 		"s[]", "l", "l[0]", "l[*]", "l[1:]", "s[1:].a", "s[?a].n", "s[?n > `0`].a", "q[?a]", "[a, n]", "{x: a, y: p.a}", "p || a", "p && a", "!p", "a || n",
 		"s | [0]", "length(s)", "length(l)", "length(a)", "l[::-1]", "f[0]", "f[*]", "s[*].[a, n]", "q[*].n", "zz", "p.zz", "s[5]", "@.a", "[p]", "{k: p}",
 		"l[990001:990002:990003]", "s[990001:990002:990003].a", "q[990001::990002]", "f[:990001:990002]", "l[990001]", "q[990001].a", "l[1:0:-1]", "l[-1:1]",
+		"\"\"", "p.\"\"", "s[*].\"\"", "[q][]", "[q, s][]", "[l][]", "[s[0], p]", "[q][0][0]", "[[q]][][]",
 		"q[0] || a", "!q[0]", "[q[0]]", "s[*].p", "q[?n > `0`].a", "s[::2].n", "q[1:]", "p.s", "p.l[0]", "a == p.a", "n < p.n", "s[0] == s[1]", "[s[0].a, q[0].a]"}
 	funcs := []string{"contains(l, a)", "reverse(l)", "sort_by(s, &n)", "max_by(s, &n)", "min_by(s, &a)", "map(&a, s)", "join(a, l)", "sort(l)", "sort(f)",
 		"max(f)", "sum(f)", "avg(f)", "to_array(l)", "not_null(p, a)", "type(s)", "type(p)", "type(q[0])", "keys(@)", "values(p)", "merge(p, p)", "to_string(l)",
